@@ -1080,8 +1080,17 @@ func (c *compiler) evalForExpression(node *ast.ForExpression) (interface{}, erro
 	riter := reflect.ValueOf(iter)
 	if riter.Kind() == reflect.Ptr {
 		if riter.IsNil() {
-			// a nil pointer, to a collection or to an Iterator, is a nil iterable
-			return nil, nil
+			// a nil pointer to a collection, or one that is an Iterator, is a nil iterable;
+			// a nil pointer to anything else is as little iterable as a non-nil one
+			_, isIterator := iter.(Iterator)
+			switch riter.Type().Elem().Kind() {
+			case reflect.Slice, reflect.Array, reflect.Map:
+				return nil, nil
+			}
+			if isIterator {
+				return nil, nil
+			}
+			return nil, fmt.Errorf("could not iterate over %T", iter)
 		}
 		riter = riter.Elem()
 	}
